@@ -264,7 +264,9 @@ class SyncObj(object):
         self.__newAppendEntriesTime = 0
 
         self.__commandsWaitingCommit = collections.defaultdict(list)  # logID => [(termID, callback), ...]
-        self.__commandsLocalCounter = 0
+        # request ids of forwarded commands must not repeat after a restart: a reply to a request of an
+        # earlier run would be taken for the reply to a new request with the same id
+        self.__commandsLocalCounter = random.getrandbits(48)
         self.__commandsWaitingReply = {}  # commandLocalCounter => callback
 
         self.__properies = set()
